@@ -390,8 +390,8 @@ def run(ck):
                 ck.oblige("Props_C12.v", False, "an instance obligation of Inst_C12.v failed (see its detail)", kind="theorem")
     # ---------------------------------------------------------------- inputs
     rng = ck.rng
-    nbase = ck.n(700, 9000)
-    ncell = ck.n(400, 6000)
+    nbase = ck.n(700, 30000)
+    ncell = ck.n(400, 20000)
     maxdepth = ck.n(6, 12)
     segs, meta = [], []  # meta[i] = (tag, relation, param, base index)
     for _ in range(nbase):
